@@ -189,6 +189,17 @@ func (e *TermEnv) term(v ssa.Value) *T {
 		return &T{K: "index", Args: []*T{e.Term(x.X), e.Term(x.Index)}}
 	case *ssa.UnOp:
 		if x.Op == token.MUL {
+			// a captured local: the value it was given (in the function or seen from its closure)
+			if al, ok := x.X.(*ssa.Alloc); ok {
+				if v, ok := cellValue(al); ok {
+					return e.Term(v)
+				}
+			}
+			if fv, ok := x.X.(*ssa.FreeVar); ok {
+				if v, ok := cellValue(freeVarCell(fv)); ok {
+					return e.Term(v)
+				}
+			}
 			a := e.Term(x.X)
 			switch a.K {
 			case "addrfield":
@@ -250,6 +261,88 @@ func (e *TermEnv) term(v ssa.Value) *T {
 		return &T{K: "call", Name: name + "@" + instrOrdinal(x), Args: args}
 	}
 	return &T{K: "opaque", Name: fmt.Sprintf("%%%s#%s", fmt.Sprintf("%T", v), instrOrdinal(v))}
+}
+
+// cellValue: a local that lives in a heap cell only because a function literal captures it, assigned
+// exactly once (in the function itself, never through the closures' free variables): the value stored.
+func cellValue(al *ssa.Alloc) (ssa.Value, bool) {
+	if al == nil || !al.Heap || al.Referrers() == nil {
+		return nil, false
+	}
+	var stored ssa.Value
+	captured := false
+	for _, r := range *al.Referrers() {
+		switch x := r.(type) {
+		case *ssa.Store:
+			if x.Addr != ssa.Value(al) || stored != nil {
+				return nil, false
+			}
+			stored = x.Val
+		case *ssa.UnOp, *ssa.DebugRef:
+		case *ssa.MakeClosure:
+			captured = true
+			fn, ok := x.Fn.(*ssa.Function)
+			if !ok {
+				return nil, false
+			}
+			for i, b := range x.Bindings {
+				if b != ssa.Value(al) || i >= len(fn.FreeVars) {
+					continue
+				}
+				fv := fn.FreeVars[i]
+				if fv.Referrers() == nil {
+					continue
+				}
+				for _, fr := range *fv.Referrers() {
+					switch y := fr.(type) {
+					case *ssa.UnOp, *ssa.DebugRef:
+					case *ssa.Store:
+						if y.Addr == ssa.Value(fv) {
+							return nil, false // the closure reassigns the variable
+						}
+						return nil, false
+					default:
+						return nil, false
+					}
+				}
+			}
+		default:
+			return nil, false
+		}
+	}
+	if stored == nil || !captured {
+		return nil, false
+	}
+	return stored, true
+}
+
+// freeVarCell: the cell a closure's free variable is bound to, when the closure is created at exactly
+// one place.
+func freeVarCell(fv *ssa.FreeVar) *ssa.Alloc {
+	fn := fv.Parent()
+	if fn == nil || fn.Parent() == nil {
+		return nil
+	}
+	idx := -1
+	for i, f := range fn.FreeVars {
+		if f == fv {
+			idx = i
+		}
+	}
+	var cell *ssa.Alloc
+	n := 0
+	for _, b := range fn.Parent().Blocks {
+		for _, ins := range b.Instrs {
+			if mc, ok := ins.(*ssa.MakeClosure); ok && mc.Fn == ssa.Value(fn) && idx >= 0 && idx < len(mc.Bindings) {
+				n++
+				cell, _ = mc.Bindings[idx].(*ssa.Alloc)
+			}
+		}
+	}
+	if n != 1 {
+		return nil
+	}
+	return cell
 }
 
 func derefBase(t *T) *T {
